@@ -60,10 +60,22 @@ KEEP_GETTERS = {
     "CDNS::CdnsEncoder::write_bytestring": "encoder primitive",
     "CDNS::CdnsEncoder::write_textstring": "encoder primitive",
     "CDNS::StringItem::write": "serialiser unit",
+    "CDNS::CdnsBlock::add_classtype": "block-table insertion API (R02.6, R04.2/3, R11.6 look for the call)",
+    "CDNS::CdnsBlock::add_qr_signature": "block-table insertion API",
+    "CDNS::CdnsBlock::add_question": "block-table insertion API",
+    "CDNS::CdnsBlock::add_rr": "block-table insertion API",
+    "CDNS::CdnsBlock::add_malformed_message_data": "block-table insertion API",
+    "CDNS::CdnsBlock::add_ip_address": "block-table insertion API",
+    "CDNS::CdnsBlock::add_name_rdata": "block-table insertion API",
+    "CDNS::CdnsBlock::add_question_list": "block-table insertion API",
+    "CDNS::CdnsBlock::add_rr_list": "block-table insertion API",
+    "CDNS::CdnsExporter::add_block_parameters": "exporter API unit",
     "CDNS::BlockTable::size": "BlockTable is treated as a container type by the rules (size/begin/end/find)",
     "CDNS::BlockTable::begin": "BlockTable is treated as a container type",
     "CDNS::BlockTable::end": "BlockTable is treated as a container type",
 }
+# the public methods of the codec classes are the emission / consumption primitives every rule is phrased in
+API_CLASSES = ("CDNS::CdnsEncoder", "CDNS::CdnsDecoder")
 MAX_DEPTH = 4
 
 
@@ -131,6 +143,8 @@ def is_pure(e, facts=None, depth=0):
         return is_pure(e.get("base"), facts, depth + 1) and is_pure(e.get("idx"), facts, depth + 1)
     if k in ("DefaultArg", "DefaultInit"):
         return is_pure(e.get("e"), facts, depth + 1)
+    if k == "InitList":
+        return all(is_pure(x, facts, depth + 1) for x in (e.get("c") or []) if isinstance(x, dict))
     if k == "Construct":
         if e.get("copymove") and len(e.get("args", [])) == 1:
             return is_pure(e["args"][0], facts, depth + 1)
@@ -153,6 +167,20 @@ def is_pure(e, facts=None, depth=0):
         if cal.get("cls"):
             # const member function of a standard / boost value type, or a const in-repo getter
             if not cal.get("const"):
+                # element access of a sequence container / smart pointer / optional through a non-const object reads
+                nm = ir.callee_name(e) or ""
+                cls = cal.get("cls") or ""
+                seq = cls.startswith(("std::vector<", "std::array<", "std::deque<", "std::basic_string<", "std::unique_ptr<",
+                                      "std::shared_ptr<", "boost::optional<"))
+                if seq and nm in ("operator[]", "at", "front", "back", "begin", "end", "data", "value", "get", "operator*", "operator->"):
+                    return True
+                # an in-repo accessor: a single `return <pure expression>` (possibly handing out a reference)
+                if cal.get("inrepo") and facts is not None and not cal.get("virtual") and depth < 6:
+                    tgt = _lookup(facts, cal)
+                    if tgt is not None:
+                        st = ir.stmts(tgt.get("body_raw", tgt.get("body"))) if tgt.get("body_raw", tgt.get("body")) else []
+                        if len(st) == 1 and st[0].get("k") == "Return" and st[0].get("e") is not None:
+                            return is_pure(st[0]["e"], facts, depth + 10)
                 return False
             if cal.get("inrepo"):
                 return True if cal.get("ret") not in ("void",) else False
@@ -178,21 +206,81 @@ def read_paths(e):
         if n.get("k") == "MCall":
             rp = path(n.get("recv"))
             if rp is not None:
-                out.add(rp)
+                cls = (n.get("callee") or {}).get("cls") or ""
+                if cls.startswith("std::") and ir.callee_name(n) in ("size", "empty", "length"):
+                    out.add(rp + ("#size",))
+                elif cls.startswith(SEQ_CLASSES) and ir.callee_name(n) in ELEM_ACCESS:
+                    out.add(rp + ("[]",))
+                else:
+                    out.add(rp)
             else:
                 rec(n.get("recv"))
             for a in n.get("args", []):
                 rec(a)
             return
+        if n.get("k") == "OpCall" and n.get("op") == "[]" and n.get("args"):
+            rp = path(n["args"][0])
+            if rp is not None and ((n.get("callee") or {}).get("cls") or "").startswith(SEQ_CLASSES):
+                out.add(rp + ("[]",))
+                for a in n["args"][1:]:
+                    rec(a)
+                return
+        if n.get("k") == "Index":
+            bp = path(n.get("base"))
+            if bp is not None:
+                out.add(bp + ("[]",))
+                rec(n.get("idx"))
+                return
         for c in ir.children(n):
             rec(c)
     rec(e)
     return out
 
 
+SEQ_CLASSES = ("std::vector<", "std::array<", "std::deque<", "std::basic_string<")
+ELEM_ACCESS = ("operator[]", "at", "front", "back", "begin", "end", "data", "cbegin", "cend")
+
+
 def related(p, q):
+    if p and p[0] == "*":
+        return not (q and q[0].startswith("l:") and len(q) == 1)      # an unknown store can hit anything but a plain local
+    if q and q[0] == "*":
+        return not (p and p[0].startswith("l:") and len(p) == 1)
     n = min(len(p), len(q))
     return p[:n] == q[:n]
+
+
+def lvalue_root(e):
+    """Access path written by a store through an lvalue that is not itself a path: an element of a container
+    (c[i], c.at(i), *c.begin()) -> path(c) + ('[]',); anything else -> ('*',) (unknown target)."""
+    e = unwrap(e)
+    for _ in range(8):
+        if not isinstance(e, dict):
+            break
+        p = path(e)
+        if p is not None:
+            return p
+        k = e.get("k")
+        if k == "Index":
+            bp = path(e.get("base"))
+            return bp + ("[]",) if bp is not None else ("*",)
+        if k == "OpCall" and e.get("op") == "[]" and e.get("args"):
+            bp = path(e["args"][0])
+            return bp + ("[]",) if bp is not None else ("*",)
+        if k == "MCall" and ir.callee_name(e) in ELEM_ACCESS:
+            bp = path(e.get("recv"))
+            return bp + ("[]",) if bp is not None else ("*",)
+        if k == "Member":
+            e = unwrap(e.get("base"))
+            continue
+        if k in ("Un", "Cast"):
+            e = unwrap(e.get("e"))
+            continue
+        if k == "OpCall" and e.get("op") in ("*", "->") and e.get("args"):
+            e = unwrap(e["args"][0])
+            continue
+        break
+    return ("*",)
 
 
 # ------------------------------------------------------------------------------------------------ writes
@@ -221,10 +309,10 @@ def node_writes(n, facts, memo=None, stack=frozenset()):
     out = []
     if k == "Bin" and n.get("op", "").endswith("=") and n["op"] not in ("==", "!=", "<=", ">="):
         p = path(n.get("lhs"))
-        out.append((p if p is not None else ("?",), "assign"))
+        out.append((p if p is not None else lvalue_root(n.get("lhs")), "assign"))
     elif k == "Un" and n.get("op") in ("pre++", "pre--", "post++", "post--"):
         p = path(n.get("e"))
-        out.append((p if p is not None else ("?",), "incdec"))
+        out.append((p if p is not None else lvalue_root(n.get("e")), "incdec"))
     elif k == "Un" and n.get("op") == "&":
         p = path(n.get("e"))
         if p is not None:
@@ -248,7 +336,18 @@ def node_writes(n, facts, memo=None, stack=frozenset()):
                     out.append((p, "byref"))
         if recv is not None and cal.get("cls") and not cal.get("const") and not cal.get("static") and not cal.get("ctor"):
             rp = path(recv)
-            if rp is not None:
+            nm_ = ir.callee_name(n) or ("operator" + n.get("op", "") if k == "OpCall" else "")
+            if rp is not None and (cal.get("cls") or "").startswith(SEQ_CLASSES) and nm_ in ELEM_ACCESS:
+                pass          # handing out an element is not a write; a store through it is recorded at the store
+            elif rp is None:
+                # non-const method on something that is not a path: an element (c[i].f()) or an unknown object
+                lr = lvalue_root(recv)
+                tgt = _lookup(facts, cal) if (facts is not None and memo is not None and cal.get("inrepo")) else None
+                if tgt is not None and tgt.get("body") is not None and not cal.get("virtual") and not _modset(tgt, facts, memo, stack):
+                    pass      # the callee provably writes nothing of its object
+                else:
+                    out.append((lr, "method"))
+            elif rp is not None:
                 tgt = _lookup(facts, cal) if (facts is not None and memo is not None and cal.get("inrepo")) else None
                 if tgt is not None and tgt.get("body") is not None and not cal.get("virtual"):
                     # an in-repo method writes what its body (transitively) writes of its own object
@@ -294,6 +393,8 @@ class Inliner:
     # -- policy
     def target_function(self, call):
         cal = call.get("callee") or {}
+        if cal.get("cls") in API_CLASSES and cal.get("access", 0) == 0:
+            return None
         if not cal.get("inrepo") or cal.get("virtual") or cal.get("ctor") or cal.get("dtor") or cal.get("lambda"):
             return None
         if call.get("k") not in ("Call", "MCall"):
@@ -307,8 +408,9 @@ class Inliner:
         helper = bool(f.get("internal")) or f.get("access", 0) in (1, 2)
         getter = False
         st = ir.stmts(f.get("body_raw", f.get("body")))
-        if len(st) == 1 and st[0].get("k") == "Return" and st[0].get("e") is not None and \
-                (f.get("const") or not f.get("cls")) and is_pure(st[0]["e"], self.facts):
+        if len(st) == 1 and st[0].get("k") == "Return" and st[0].get("e") is not None:
+            # a getter or a forwarder: the call *is* the returned expression (arguments are substituted only when that
+            # keeps their evaluation count, see try_expr_inline)
             getter = True
         if not (helper or getter):
             return None
@@ -764,6 +866,14 @@ class Inliner:
             s = s2
         else:
             s = self.tx_expr(s, stack, fn)
+        # N3: a conditional expression that selects between effects is lifted to an if/else statement
+        lifted = self.lift_cond(s)
+        if lifted is not None:
+            return self.tx_block(lifted, stack, fn)
+        # N4: std::for_each / std::accumulate over a whole container with an inline lambda is the loop it abbreviates
+        looped = self.algorithm_loop(s)
+        if looped is not None:
+            return self.tx_block(looped, stack, fn)
         # statement-level: the call is the whole statement, the whole right-hand side, the whole initialiser or
         # the whole returned expression
         site = self.statement_site(s)
@@ -792,7 +902,188 @@ class Inliner:
         if ft:
             sts = sts + K(None)
         self.note(cid, is_lam, True)
-        return self.bind(params, args, pmap, call.get("l")) + sts
+        res = self.bind(params, args, pmap, call.get("l")) + sts
+        # a lambda handed in as an argument is now a local with a known body: calls through the parameter can be
+        # expanded in turn (bounded by the nesting depth)
+        new_lams = {}
+        for d in res:
+            if isinstance(d, dict) and d.get("k") == "Decl":
+                for v in d.get("vars", []):
+                    init = unwrap(v.get("init")) if v.get("init") is not None else None
+                    while isinstance(init, dict) and init.get("k") in ("Construct", "Cast") and (init.get("copymove") or init.get("k") == "Cast"):
+                        init = unwrap(init["args"][0] if init.get("k") == "Construct" else init.get("e"))
+                    if isinstance(init, dict) and init.get("k") == "Lambda":
+                        new_lams[v["id"]] = init
+        if new_lams and len(stack) < MAX_DEPTH + 2:
+            self._lambdas.update(new_lams)
+            res = self.tx_block(res, stack + ("<lambda-arg>",), fn)
+        return res
+
+    # ---- N3 conditional lifting
+    def lift_cond(self, s):
+        k = s.get("k")
+        if k not in ("Return", "Decl", "Bin", "Call", "MCall", "OpCall"):
+            return None
+        if k == "Decl" and (len(s.get("vars", [])) != 1 or s["vars"][0].get("init") is None or s["vars"][0].get("ref")):
+            return None
+        if k == "Bin" and not (s.get("op", "").endswith("=") and s["op"] not in ("==", "!=", "<=", ">=")):
+            return None
+        root = s["vars"][0]["init"] if k == "Decl" else (s.get("e") if k == "Return" else s)
+        if root is None:
+            return None
+        # outermost conditional expressions that are evaluated unconditionally
+        found = []
+
+        def scan(n):
+            n_ = n
+            if not isinstance(n_, dict):
+                return
+            kk = n_.get("k")
+            if kk == "Lambda":
+                return
+            if kk == "Cond":
+                found.append(n_)
+                return
+            if kk == "Bin" and n_.get("op") in ("&&", "||", ","):
+                scan(n_.get("lhs"))
+                return
+            for c in ir.children(n_):
+                scan(c)
+        scan(root)
+        if not found:
+            return None
+
+        def has_effect(n):
+            return any(x.get("k") in ("Call", "MCall", "OpCall", "Construct") and not is_pure(x, self.facts) for x in walk(n))
+        # only worth lifting when the statement has an effect the rules look at
+        if not has_effect(s):
+            return None
+        c0 = found[0]
+        if not is_pure(c0.get("c"), self.facts):
+            return None
+        # the condition must not depend on anything the rest of the statement writes
+        rps = read_paths(c0["c"])
+        for n in walk(s):
+            for (p, kind) in node_writes(n, self.facts, {}):
+                if any(related(p, r) for r in rps):
+                    return None
+        f0 = ir.cond(c0["c"], None)
+        same = [c for c in found if ir.cond(c["c"], None) == f0]
+        # a selection between two constants (`x ? 2 : 1` as a member count) is a value, not a choice of effects
+        if all(ir.const_value(c.get("a")) is not None and ir.const_value(c.get("b")) is not None for c in same):
+            return None
+
+        def pick(n, which):
+            if isinstance(n, list):
+                return [pick(x, which) for x in n]
+            if not isinstance(n, dict):
+                return n
+            if any(n is c for c in same):
+                return copy.deepcopy(n[which])
+            return {key: (pick(v, which) if isinstance(v, (dict, list)) else v) for key, v in n.items()}
+        if k == "Decl":
+            v = s["vars"][0]
+            v0 = {key: val for key, val in v.items() if key not in ("init", "const")}
+            decl = {"k": "Decl", "l": s.get("l"), "vars": [v0]}
+            ref = {"k": "Ref", "d": "local", "n": v["n"], "id": v["id"], "t": v.get("t"), "l": s.get("l")}
+
+            def asg(e):
+                return {"k": "Bin", "op": "=", "l": s.get("l"), "t": v.get("t"), "lhs": copy.deepcopy(ref), "rhs": e}
+            then, els = asg(pick(v["init"], "a")), asg(pick(v["init"], "b"))
+            return [decl, {"k": "If", "l": s.get("l"), "cond": c0["c"], "then": {"k": "Block", "l": s.get("l"), "s": [then]},
+                           "else": {"k": "Block", "l": s.get("l"), "s": [els]}}]
+        then, els = pick(s, "a"), pick(s, "b")
+        return [{"k": "If", "l": s.get("l"), "cond": c0["c"], "then": {"k": "Block", "l": s.get("l"), "s": [then]},
+                 "else": {"k": "Block", "l": s.get("l"), "s": [els]}}]
+
+    # ---- N4 algorithms over a whole container
+    @staticmethod
+    def _whole_range(b, e):
+        """Container expression X when (b, e) is (X.begin(), X.end()) / (std::begin(X), std::end(X)), else None."""
+        def side(n, names):
+            n = ir.unwrap_all_casts(n)
+            if not isinstance(n, dict):
+                return None
+            if n.get("k") == "MCall" and ir.callee_name(n) in names and not n.get("args"):
+                return n.get("recv")
+            if n.get("k") == "Call" and strip_targs(callee_qn(n) or "") in tuple("std::" + x for x in names) and len(n.get("args", [])) == 1:
+                return n["args"][0]
+            return None
+        x, y = side(b, ("begin", "cbegin")), side(e, ("end", "cend"))
+        if x is None or y is None:
+            return None
+        px, py = path(x), path(y)
+        if px is None or px != py:
+            return None
+        return x
+
+    def _lambda_of(self, a):
+        a = unwrap(a)
+        while isinstance(a, dict) and a.get("k") in ("Construct", "Cast") and (a.get("copymove") or a.get("k") == "Cast"):
+            a = unwrap(a["args"][0] if a.get("k") == "Construct" else a.get("e"))
+        if isinstance(a, dict) and a.get("k") == "Lambda":
+            return a
+        if isinstance(a, dict) and a.get("k") == "Ref" and a.get("d") == "local" and a.get("id") in self._lambdas:
+            return self._lambdas[a["id"]]
+        return None
+
+    def algorithm_loop(self, s):
+        site = self.statement_site(s)
+        call = None
+        K = None
+        if site is not None:
+            call, K, _void = site
+        if call is None or call.get("k") != "Call":
+            return None
+        q = strip_targs(callee_qn(call) or "")
+        args = call.get("args", [])
+        if q == "std::for_each" and len(args) == 3:
+            rng_, lam = self._whole_range(args[0], args[1]), self._lambda_of(args[2])
+            if rng_ is None or lam is None or len(lam.get("params", [])) != 1 or lam.get("body") is None:
+                return None
+            body, pmap = self.instantiate(lam["params"], lam["body"], None)
+            try:
+                sts, _ft = self.tail(ir.stmts(body), (lambda e: [{"k": "Continue"}]) , True)
+            except NoInline:
+                return None
+            while sts and sts[-1].get("k") == "Continue":
+                sts = sts[:-1]
+            if any(x.get("k") == "Continue" for x in walk(sts)):
+                pass        # `continue` inside nested branches keeps its meaning in the loop
+            p = lam["params"][0]
+            var = {"n": p.get("n") or "elem", "id": pmap[p["id"]], "t": p.get("t", ""), "l": call.get("l")}
+            if p.get("t", "").endswith("&"):
+                var["ref"] = True
+            if s.get("k") == "Return":
+                return None
+            return [{"k": "RangeFor", "l": call.get("l"), "var": var, "range": rng_, "body": {"k": "Block", "l": call.get("l"), "s": sts}, "alg": "for_each"}]
+        if q == "std::accumulate" and len(args) == 4:
+            rng_, lam = self._whole_range(args[0], args[1]), self._lambda_of(args[3])
+            if rng_ is None or lam is None or len(lam.get("params", [])) != 2 or lam.get("body") is None:
+                return None
+            body, pmap = self.instantiate(lam["params"], lam["body"], None)
+            pa, px = lam["params"][0], lam["params"][1]
+            acc = {"n": pa.get("n") or "acc", "id": pmap[pa["id"]], "t": (pa.get("t") or "").replace("const ", "").rstrip("&").strip(), "l": call.get("l"), "init": args[2]}
+            accref = {"k": "Ref", "d": "local", "n": acc["n"], "id": acc["id"], "t": acc["t"], "l": call.get("l")}
+
+            def Kret(e):
+                return [{"k": "Bin", "op": "=", "l": call.get("l"), "t": acc["t"], "lhs": copy.deepcopy(accref), "rhs": e}]
+            try:
+                sts, ft = self.tail(ir.stmts(body), Kret, False)
+            except NoInline:
+                return None
+            if ft:
+                return None
+            var = {"n": px.get("n") or "elem", "id": pmap[px["id"]], "t": px.get("t", ""), "l": call.get("l")}
+            if px.get("t", "").endswith("&"):
+                var["ref"] = True
+            loop = {"k": "RangeFor", "l": call.get("l"), "var": var, "range": rng_, "body": {"k": "Block", "l": call.get("l"), "s": sts}, "alg": "accumulate"}
+            try:
+                rest = K(copy.deepcopy(accref))
+            except NoInline:
+                return None
+            return [{"k": "Decl", "l": call.get("l"), "vars": [acc]}, loop] + rest
+        return None
 
     def statement_site(self, s):
         """Locate `call` when s has one of the forms  call; | lhs op= call; | T x = call; | return call;"""
@@ -868,24 +1159,33 @@ def propagate(body, facts, memo):
             number(c, l2)
     number(body, ())
     writes = []
-    # `&x` handed straight to a call is a write at that call (C APIs: deflate(&strm, ..)), not a lasting escape
-    arg_addr = set()
-    for n in walk(body):
-        if n.get("k") in ("Call", "MCall", "OpCall", "Construct"):
-            for a in n.get("args", []):
-                ua = unwrap(a)
-                while isinstance(ua, dict) and ua.get("k") == "Cast":
-                    ua = unwrap(ua.get("e"))
-                if isinstance(ua, dict) and ua.get("k") == "Un" and ua.get("op") == "&":
-                    arg_addr.add(id(ua))
-                    p = path(ua.get("e"))
-                    if p is not None:
-                        writes.append((order[id(n)], p, loops_of[id(n)], "byref"))
-    for n in walk(body):
-        for (p, kind) in node_writes(n, facts, memo):
-            if kind == "escape" and id(n) in arg_addr:
+
+    def collect_writes():
+        """(Re)computed before every round: substitution renames the paths that writes and reads go through."""
+        del writes[:]
+        # `&x` handed straight to a call is a write at that call (C APIs: deflate(&strm, ..)), not a lasting escape
+        arg_addr = set()
+        for n in walk(body):
+            if id(n) not in order:
                 continue
-            writes.append((order[id(n)], p, loops_of[id(n)], kind))
+            if n.get("k") in ("Call", "MCall", "OpCall", "Construct"):
+                for a in n.get("args", []):
+                    ua = unwrap(a)
+                    while isinstance(ua, dict) and ua.get("k") == "Cast":
+                        ua = unwrap(ua.get("e"))
+                    if isinstance(ua, dict) and ua.get("k") == "Un" and ua.get("op") == "&":
+                        arg_addr.add(id(ua))
+                        p = path(ua.get("e"))
+                        if p is not None:
+                            writes.append((order[id(n)], p, loops_of[id(n)], "byref"))
+        for n in walk(body):
+            if id(n) not in order:
+                continue
+            for (p, kind) in node_writes(n, facts, memo):
+                if kind == "escape" and id(n) in arg_addr:
+                    continue
+                writes.append((order[id(n)], p, loops_of[id(n)], kind))
+    collect_writes()
     # candidates
     cands = {}
     for n in walk(body):
@@ -895,16 +1195,20 @@ def propagate(body, facts, memo):
         if "n" not in v or v.get("init") is None or v.get("static") or v.get("tls") or "vla" in v:
             continue
         key = "l:%s#%s" % (v["n"], v["id"])
-        if key in env.assigned:
-            continue
         init = v["init"]
+        # a reference cannot be re-seated: writing "to it" writes the object it names
+        fixed_ref = bool(v.get("ref")) and path(init) is not None and "$" not in path(init)
+        if key in env.assigned and not fixed_ref:
+            continue
+        if v.get("ref") and not fixed_ref:
+            continue          # a reference to an element / to a call result stays a name of its own
         if not is_pure(init, facts):
             continue
         ui = unwrap(init)
         if isinstance(ui, dict) and ui.get("k") == "Lambda":
             continue
         t = v.get("t", "")
-        if t.endswith("*") or "iterator" in t:
+        if "iterator" in t:
             continue
         cands[v["id"]] = (n, v, init, read_paths(init))
     if not cands:
@@ -920,6 +1224,9 @@ def propagate(body, facts, memo):
 
     def harmful(cid, use):
         n, v, init, rps = cands[cid]
+        if v.get("ref") and path(init) is not None and "$" not in path(init):
+            # a reference bound to a fixed sub-object is that object, whatever is written to it in between
+            return False
         d_o = order[id(n)]
         u_o = order[id(use)]
         d_loops = set(loops_of[id(n)])
@@ -939,6 +1246,8 @@ def propagate(body, facts, memo):
     # iterate to a fixpoint so that chains (a = p.x; b = a.y) collapse; initialisers are substituted first
     for _round in range(6):
         changed = False
+        if _round:
+            collect_writes()
         for cid, (dn, v, init, rps) in list(cands.items()):
             # refresh the initialiser's read set (it may itself have been rewritten)
             cands[cid] = (dn, v, v["init"], read_paths(v["init"]))
@@ -1065,7 +1374,147 @@ def fold_constants(body, enums):
             t = (n.get("t") or "").replace("const ", "")
             if v is not None and (t in minieval.BITS or (enums and t in enums)):
                 n["cv"] = minieval.wrap(v, t, enums)
+        elif k == "If" and isinstance(n.get("cond"), dict) and "condvar" not in n and "init" not in n:
+            cv_ = val(n["cond"])
+            if cv_ is not None:
+                taken = n.get("then") if cv_ else n.get("else")
+                keep = copy.deepcopy(taken) if isinstance(taken, dict) else {"k": "Null", "l": n.get("l")}
+                n.clear()
+                n.update(keep)
+        elif k == "Cond":
+            # a conditional whose condition became a literal is the selected branch
+            cv_ = val(n.get("c")) if isinstance(n.get("c"), dict) else None
+            if cv_ is not None:
+                pick = n.get("a") if cv_ else n.get("b")
+                if isinstance(pick, dict):
+                    keep = copy.deepcopy(pick)
+                    n.clear()
+                    n.update(keep)
+        elif k == "Bin" and n.get("op") in ("|=", "&=") and (unwrap(n.get("lhs")) or {}).get("t") == "bool":
+            # flag |= true  is  flag = true ;  flag |= false  does nothing  (and dually for &=)
+            v = val(n.get("rhs"))
+            if v is not None:
+                sets = (n["op"] == "|=" and v) or (n["op"] == "&=" and not v)
+                if sets:
+                    n["op"] = "="
+                else:
+                    n.clear()
+                    n.update({"k": "Null", "l": 0})
     rec(body)
+
+
+# ------------------------------------------------------------------------------------------------ named constants
+
+def literal_like(e, depth=0):
+    """A constant initialiser made of literals only (numbers, strings, a string object built from a literal)."""
+    u = unwrap(e)
+    if not isinstance(u, dict) or depth > 6:
+        return False
+    k = u.get("k")
+    if k in ("Lit", "Str"):
+        return True
+    if "cv" in u:
+        return True
+    if k == "Cast":
+        return literal_like(u.get("e"), depth + 1)
+    if k == "Construct" and len(u.get("args", [])) in (1, 2) and "basic_string" in (u.get("t") or ""):
+        return literal_like(u["args"][0], depth + 1)
+    return False
+
+
+def substitute_named_constants(body, facts):
+    """A reference to a const namespace-scope / static-member object with a literal initialiser is that literal."""
+    consts = getattr(facts, "_const_inits", None)
+    if consts is None:
+        consts = {}
+        for v in facts.vars:
+            if v.get("init") is not None and (v.get("const") or v.get("constexpr")) and not v.get("staticlocal") and literal_like(v["init"]):
+                consts.setdefault(v["qn"], v["init"])
+                consts.setdefault(v["qn"].replace("std::string", "std::basic_string<char>"), v["init"])
+        facts._const_inits = consts
+    if not consts:
+        return 0
+    n = [0]
+
+    def rec(x):
+        if isinstance(x, list):
+            for i, y in enumerate(x):
+                r = rec(y)
+                if r is not None:
+                    x[i] = r
+            return None
+        if not isinstance(x, dict):
+            return None
+        if x.get("k") == "Ref" and x.get("d") == "global" and x.get("qn") in consts and "cv" not in x:
+            n[0] += 1
+            return copy.deepcopy(consts[x["qn"]])
+        for key in list(x.keys()):
+            v = x[key]
+            if isinstance(v, dict):
+                r = rec(v)
+                if r is not None:
+                    x[key] = r
+            elif isinstance(v, list):
+                rec(v)
+        return None
+    rec(body)
+    return n[0]
+
+
+# ------------------------------------------------------------------------------------------------ late lifting
+
+def post_lift(body, inl):
+    """Substitution can bring a conditional expression into a call that selects between effects
+    (`m = neg ? ~v : v; write_int(m, neg ? NEGATIVE : UNSIGNED)`): lift those too.  Returns number lifted."""
+    n = [0]
+
+    def block(sts):
+        out = []
+        for s in sts:
+            out.extend(stmt(s))
+        return out
+
+    def wrap(s, sts):
+        if len(sts) == 1:
+            return sts[0]
+        return {"k": "Block", "l": s.get("l") if isinstance(s, dict) else None, "s": sts}
+
+    def stmt(s):
+        if not isinstance(s, dict):
+            return [s]
+        k = s.get("k")
+        if k == "Block":
+            s["s"] = block(s.get("s", []))
+            return [s]
+        if k == "If":
+            if s.get("then") is not None:
+                s["then"] = wrap(s["then"], stmt(s["then"]))
+            if s.get("else") is not None:
+                s["else"] = wrap(s["else"], stmt(s["else"]))
+            return [s]
+        if k in ("While", "Do", "For", "RangeFor", "Switch"):
+            if s.get("body") is not None:
+                s["body"] = wrap(s["body"], stmt(s["body"]))
+            return [s]
+        if k in ("Case", "Default"):
+            if s.get("sub") is not None:
+                s["sub"] = wrap(s["sub"], stmt(s["sub"]))
+            return [s]
+        if k == "Try":
+            s["body"] = wrap(s["body"], stmt(s["body"]))
+            for h in s.get("handlers", []):
+                h["body"] = wrap(h["body"], stmt(h["body"]))
+            return [s]
+        if k in ("Break", "Continue", "Null", "Opaque", "OtherStmt"):
+            return [s]
+        r = inl.lift_cond(s)
+        if r is None:
+            return [s]
+        n[0] += 1
+        return block(r)
+    if isinstance(body, dict) and body.get("k") == "Block":
+        body["s"] = block(body.get("s", []))
+    return n[0]
 
 
 # ------------------------------------------------------------------------------------------------ driver
@@ -1100,9 +1549,39 @@ def normalise(facts, do_inline=True, do_propagate=True):
             if f.get("body") is not None:
                 if f["body"] is f.get("body_raw"):
                     f["body"] = copy.deepcopy(f["body"])
+                substitute_named_constants(f["body"], facts)
                 stats["propagated_uses"] += propagate(f["body"], facts, memo)
                 fold_constants(f["body"], facts.enums)
+                if post_lift(f["body"], inl):
+                    fold_constants(f["body"], facts.enums)
     stats["kept_calls"] = sum(inl.kept_calls.values())
     stats["log"] = inl.log[:50]
     facts.norm_stats = stats
     return stats
+
+
+def self_check(facts):
+    """Controls in tu/normalize_fixtures.cpp: the normalisation must keep / substitute exactly the locals the
+    fixture names say.  A wrong answer means the rewriting is unsound or dead: every check stops (exit 2)."""
+    from .facts import AnalysisBroken
+    seen = 0
+    for f in list(facts.functions.values()):
+        q = f["qn"]
+        if not q.startswith("verif_fx::") or ("_keep_" not in q and "_subst_" not in q):
+            continue
+        mode, var = ("keep", q.split("_keep_")[1]) if "_keep_" in q else ("subst", q.split("_subst_")[1])
+        uses = [n for n in walk(f["body"]) if n.get("k") == "Ref" and n.get("d") == "local" and n.get("n") == var]
+        seen += 1
+        if mode == "keep" and not uses:
+            raise AnalysisBroken("normalise", "control %s: local `%s` was substituted although a write intervenes" % (q, var))
+        if mode == "subst" and uses:
+            raise AnalysisBroken("normalise", "control %s: local `%s` was not substituted" % (q, var))
+    if seen < 10:
+        raise AnalysisBroken("normalise", "only %d normalisation controls found (tu/normalize_fixtures.cpp)" % seen)
+    # the fixtures are not part of the analysed program
+    for k in [k for k, f in facts.functions.items() if f["qn"].startswith("verif_fx::")]:
+        f = facts.functions.pop(k)
+        lst = facts.by_qn.get(f["qn"], [])
+        if f in lst:
+            lst.remove(f)
+    facts.norm_stats["controls_checked"] = seen
